@@ -270,7 +270,7 @@ class Config(ConfigParser):
             file_path = Path(file_name).with_suffix(file_extension)
         else:
             # neither output_file was specified nor mapping partition are used. Use default output_file.
-            file_name = OUTPUT_FILE
+            file_name = DEFAULT_OUTPUT_FILE
             file_path = Path(file_name).with_suffix(file_extension)
 
         return file_path.as_posix()
